@@ -80,7 +80,79 @@ def reuse_probe(case):
             o2.append(bytes(b))
     if o2 != fresh or b''.join(o1) != b''.join(pieces):
         return 'two runs on one adapter object consumed alternately interfere with each other'
+    # ... and neither by the KEY of an earlier call on the same adapter object
+    import hashlib
+    key2 = hashlib.sha256(bytes.fromhex(case['key']) + b'other').digest()[:16]
+    fresh2 = [bytes(c) for c in gclmulchunker(min_length=mn, max_length=mx)(iter(pieces2), params=key2)]
+    ch3 = gclmulchunker(min_length=mn, max_length=mx)
+    list(ch3(iter(pieces), params=key))
+    if [bytes(c) for c in ch3(iter(pieces2), params=key2)] != fresh2:
+        return 'an adapter object that has chunked under one key cuts a later stream under another key differently from a fresh adapter'
     return None
+
+
+def source_size_constants():
+    """integer constants >= 1 MiB in the chunker adapter and the repository module (read blocks, feed lengths, ...)"""
+    import ast
+    out = set()
+    for rel in ('replicat/utils/adapters.py', 'replicat/repository.py'):
+        try:
+            tree = ast.parse((core.REPO / rel).read_text())
+        except Exception:
+            continue
+        for n in ast.walk(tree):
+            if isinstance(n, ast.Constant) and isinstance(n.value, int) and not isinstance(n.value, bool) and (1 << 20) <= n.value <= (96 << 20):
+                out.add(n.value)
+    return sorted(out)
+
+
+def huge_piece_probe(ctx, rep):
+    """pieces larger than every size constant in the source: one piece vs. 16 MiB pieces vs. 1 MiB pieces must be cut alike outside
+    the tail zone, lossless, aligned, within bounds"""
+    from replicat.utils.adapters import gclmulchunker
+    consts = source_size_constants()
+    size = 2 * (max(consts) if consts else (16 << 20)) + (1 << 20) + ctx.rng.randrange(1, 4096)
+    data = ctx.rng.randbytes(1 << 20) * (size // (1 << 20)) + ctx.rng.randbytes(size % (1 << 20))
+    # make it high-entropy enough: xor a counter into the first bytes of every MiB block
+    data = bytearray(data)
+    for i in range(0, len(data), 1 << 20):
+        data[i:i + 8] = i.to_bytes(8, 'little')
+    data = bytes(data)
+    mn, mx = 4096, 65536
+    key = ctx.rng.randbytes(16)
+
+    def cut(pieces):
+        return [len(c) for c in gclmulchunker(min_length=mn, max_length=mx)(iter(pieces), params=key)]
+    whole = cut([data])
+    step = 16 << 20
+    by16 = cut([data[i:i + step] for i in range(0, len(data), step)])
+    by1 = cut([data[i:i + (1 << 20)] for i in range(0, len(data), 1 << 20)])
+    rep.case(('huge-piece', len(data)), nontrivial=True)
+    rep.count('huge_piece_bytes', len(data))
+
+    def head(lengths):
+        out, pos = [], 0
+        for n in lengths:
+            if len(data) - pos >= 2 * mx:
+                out.append(n)
+            pos += n
+        return out
+    for name, other in (('16 MiB pieces', by16), ('1 MiB pieces', by1)):
+        if sum(whole) != len(data) or sum(other) != len(data):
+            rep.violations.append({'what': f'a stream of {len(data)} bytes handed over as one piece / {name}: chunks do not add up to the stream',
+                                   'signature': {'kind': 'lossless', 'probe': 'huge'}, 'replay': {'probe': 'huge'}})
+            return
+        h1, h2 = head(whole), head(other)
+        if h1 != h2:
+            k = next(i for i, (a, b) in enumerate(zip(h1 + [0], h2 + [0])) if a != b)
+            rep.violations.append({'what': f'a stream of {len(data)} bytes (min {mn}, max {mx}) handed over as ONE piece and as {name} is cut differently outside the tail zone: '
+                                           f'chunk #{k} at offset {sum(h1[:k])} has length {h1[k] if k < len(h1) else None} vs {h2[k] if k < len(h2) else None}',
+                                   'signature': {'kind': 'segmentation', 'probe': 'huge'}, 'replay': {'probe': 'huge'}})
+            return
+    bad = [n for n in head(whole) if n % 4 or not (mn <= n <= mx)]
+    if bad:
+        rep.violations.append({'what': f'one piece of {len(data)} bytes: chunk of length {bad[0]} outside [min, max] or unaligned far from the tail',
+                               'signature': {'kind': 'bounds', 'probe': 'huge'}, 'replay': {'probe': 'huge'}})
 
 
 def head_part(chunks, total, mx):
@@ -314,6 +386,7 @@ def run(ctx) -> Report:
     maxlen = ctx.scale(420, 700)
     cases = corpus_cases() + [gen_case(ctx.rng, maxlen) for _ in range(n)]
     check_cases(cases, rep)
+    huge_piece_probe(ctx, rep)
     rep.notes.append(stale_binary_note())
     return rep
 
@@ -326,12 +399,18 @@ def search(ctx, broken) -> Report:
     cases = [{k: c[k] for k in ('key', 'mn', 'mx', 'pieces', 'pieces2')} for c in seeds]
     cases += [gen_case(rng, 900) for _ in range(6000)]
     check_cases(cases, rep, with_model=False)
+    huge_piece_probe(ctx, rep)
     return rep
 
 
 def replay(ctx, obj):
     rep = Report(rule=RULE)
     case = obj.get('replay') or {}
+    if case.get('probe') == 'huge':
+        huge_piece_probe(ctx, rep)
+        for v in rep.violations:
+            print('VIOLATION-REPRODUCED', v['what'])
+        return 1 if rep.violations else 0
     if 'pieces' not in case:
         print('replay file does not carry a chunker case:', obj.get('kind'))
         return 0
